@@ -68,6 +68,21 @@ BYTES = _Prim('Bytes', lambda: z3.SeqSort(z3.BitVecSort(8)))
 REAL = _Prim('Real', z3.RealSort)
 
 
+def has_str(ty):
+    """does the type mention Str (whose sort depends on the opaque-strings mode)?"""
+    if ty is STR:
+        return True
+    for a in ('elem', 'inner', 'k', 'v'):
+        sub = getattr(ty, a, None)
+        if isinstance(sub, Ty) and has_str(sub):
+            return True
+    return any(has_str(t) for t in getattr(ty, 'fields', {}).values())
+
+
+def _key(ty):
+    return ty.name + ('__o' if (OPAQUE[0] and has_str(ty)) else '')
+
+
 class Ref(Ty):
     """reference to a mutable object; its attributes live in heap fields"""
 
@@ -143,11 +158,12 @@ class ListOf(Ty):
         self.elem, self.name = elem, 'List[' + elem.name + ']'
 
     def sort(self):
-        if self.name not in _cache:
-            d = z3.Datatype('Lst_' + self.elem.name.replace('<', '_').replace('>', '_').replace('[', '_').replace(']', '_').replace(',', '_'))
+        key = _key(self)
+        if key not in _cache:
+            d = z3.Datatype('Lst_' + key[5:].replace('<', '_').replace('>', '_').replace('[', '_').replace(']', '_').replace(',', '_'))
             d.declare('mk', ('len', z3.IntSort()), ('arr', z3.ArraySort(z3.IntSort(), self.elem.sort())))
-            _cache[self.name] = d.create()
-        return _cache[self.name]
+            _cache[key] = d.create()
+        return _cache[key]
 
     def mk(self, n, arr):
         return self.sort().mk(n, arr)
@@ -167,12 +183,13 @@ class Opt(Ty):
         self.inner, self.name = inner, 'Opt<' + inner.name + '>'
 
     def sort(self):
-        if self.name not in _cache:
-            d = z3.Datatype(self.name.replace('<', '_').replace('>', '_'))
+        key = _key(self)
+        if key not in _cache:
+            d = z3.Datatype(key.replace('<', '_').replace('>', '_'))
             d.declare('none')
             d.declare('some', ('val', self.inner.sort()))
-            _cache[self.name] = d.create()
-        return _cache[self.name]
+            _cache[key] = d.create()
+        return _cache[key]
 
     def none(self):
         return self.sort().none
@@ -208,11 +225,12 @@ class Rec(Ty):
         self.name, self.fields = 'Rec_' + name, dict(fields)
 
     def sort(self):
-        if self.name not in _cache:
-            d = z3.Datatype(self.name)
+        key = _key(self)
+        if key not in _cache:
+            d = z3.Datatype(key)
             d.declare('mk', *[(self.name + '_' + f, t.sort()) for f, t in self.fields.items()])
-            _cache[self.name] = d.create()
-        return _cache[self.name]
+            _cache[key] = d.create()
+        return _cache[key]
 
     def mk(self, *a):
         return self.sort().mk(*a)
